@@ -535,7 +535,12 @@ fn gen_directed(rng: &mut Rng, cfg: &GenCfg, ids: &mut Ids) -> Scenario {
 
 pub fn gen_scenario(rng: &mut Rng) -> Scenario {
   let ascii = rng.chance(700);
-  let cfg = GenCfg::small(ascii);
+  let mut cfg = GenCfg::small(ascii);
+  let deep = crate::rng::deep();
+  if deep {
+    cfg.max_nodes = 10;
+    cfg.max_calls = 6;
+  }
   let mut ids = Ids::new();
   if rng.chance(400) {
     return gen_directed(rng, &cfg, &mut ids);
@@ -572,7 +577,7 @@ pub fn gen_scenario(rng: &mut Rng) -> Scenario {
   let n_threads = if rng.chance(650) { 2 } else { 3 };
   let mut threads = vec![];
   for _ in 0..n_threads {
-    let n_ops = 1 + rng.usize_below(4);
+    let n_ops = 1 + rng.usize_below(if deep { 6 } else { 4 });
     let ops = (0..n_ops)
       .map(|_| {
         let obj = if rng.chance(600) {
